@@ -110,7 +110,8 @@ def parse_criteria(criteria):
     else:
         if any(c in val for c in ('?', '*')):
             # Then use fnmatch
-            return lambda a: fnmatch.fnmatch(val, a)
+            # the cell is matched against the pattern, not the pattern against the cell
+            return lambda a: isinstance(a, string_types) and fnmatch.fnmatch(a, val)
         else:
             return lambda a: a == to_number(val)
 
